@@ -70,3 +70,15 @@ Definition with_proc (tgt : list nat) (rw : bool) : decl :=
   {| d_kind := FProc; d_source := 0; d_target := tgt; d_flags := MS_NOSUID + MS_NODEV + MS_NOEXEC + (if rw then 0 else MS_RDONLY) |}.
 
 Definition declared_ro (d : decl) : bool := has (d_flags d) MS_RDONLY.
+
+(** ** masked paths (maskPath in container init, after pivot_root): bind /dev/null over a file, an empty
+    read-only tmpfs over a directory; a path that does not exist needs no mask.  The bind is refused with
+    ENOENT both when the path is missing and when the container has no /dev/null, and the code ignores ENOENT *)
+Inductive pkind := PFile | PDir.
+Inductive masked := MNotPresent | MNull | MTmpfs | MExposed.
+Definition mask_one (has_dev_null : bool) (k : option pkind) : masked :=
+  match k with
+  | None => MNotPresent
+  | Some PFile => if has_dev_null then MNull else MExposed
+  | Some PDir => if has_dev_null then MTmpfs else MExposed      (* the source is looked up first: ENOENT comes before ENOTDIR *)
+  end.
